@@ -472,6 +472,17 @@ def render(c):
         'def picmgMinLen : Option Nat := %s' % opt(c['picmgMinLen']),
         'def powerMinLen : Option Nat := %s' % opt(c['powerMinLen']),
         '',
+        '/-- which of the two known FORMS each of the five repaired places has in this tree, as read from the AST',
+        '(true = the form of the pinned tree): TypeLengthString BCD+ branch decodes `self.raw` without converting it to',
+        'bytes; _unpack6bitascii indexes d[1], d[2] unguarded; CommonInfoArea._from_data sums data[:length] without',
+        'checking the length byte; Fru._read_fru_area returns the read without checking count; create_from_record_id',
+        'tests `data[0] == TYPE_OEM_PICMG` only.  (Fields of Model/FruParse.Variant, in its order.) -/',
+        'def bcdBytesOnly : Bool := %s' % ('false' if c['bcdConverts'] else 'true'),
+        'def sixStrict : Bool := %s' % ('true' if c['sixForm'] == 'strict' else 'false'),
+        'def areaLenLax : Bool := %s' % ('true' if c['areaLenForm'] == 'lax' else 'false'),
+        'def devLenLax : Bool := %s' % ('true' if c['devLenForm'] == 'lax' else 'false'),
+        'def picmgTypeOnly : Bool := %s' % ('true' if c['dispatchForm'] == 'type-only' else 'false'),
+        '',
         'end PyIpmi.Gen.FruTables',
         '',
     ]
